@@ -803,6 +803,22 @@ pub fn reads() -> Vec<Read> {
         Read { what: "Buildinfo::environment lines", text: "Format: 1.0\nEnvironment:\n DEB_BUILD_OPTIONS=\"parallel=4\"\n LANG=\"C.UTF-8\"\n", read: |d| { let mut v: Vec<(String, String)> = v_binfo(d).environment().unwrap_or_default().into_iter().collect(); v.sort(); format!("{:?}", v) }, expect: "[(\"DEB_BUILD_OPTIONS\", \"\\\"parallel=4\\\"\"), (\"LANG\", \"\\\"C.UTF-8\\\"\")]" },
         Read { what: "Buildinfo::checksums_sha1 triples", text: "Format: 1.0\nChecksums-Sha1:\n da39 12 a.deb\n", read: |d| format!("{:?}", v_binfo(d).checksums_sha1().iter().map(|f| (f.sha1.clone(), f.size, f.filename.clone())).collect::<Vec<_>>()), expect: "[(\"da39\", 12, \"a.deb\")]" },
         Read { what: "Changes accessors", text: "Format: 1.8\nSource: foo\nBinary: a b\nArchitecture: source amd64\nVersion: 1.0-1\nDistribution: unstable\nUrgency: medium\nMaintainer: M <m@e.org>\nChanged-By: C <c@e.org>\nDescription:\n a - x\nChecksums-Sha1:\n da39 12 a.deb\nFiles:\n d41d 12 utils optional a.deb\n", read: |d| { let c = debian_control::lossless::changes::Changes::read(d.to_string().as_bytes()).unwrap(); format!("{:?} {:?} {:?} {:?} {:?} {:?} {:?} {:?}", c.format(), c.source(), c.binary(), c.architecture(), c.version().map(|v| v.to_string()), c.distribution(), c.urgency(), c.files().map(|f| f.iter().map(|x| x.to_string()).collect::<Vec<_>>())) }, expect: "Some(\"1.8\") Some(\"foo\") Some([\"a\", \"b\"]) Some([\"source\", \"amd64\"]) Some(\"1.0-1\") Some(\"unstable\") Some(Medium) Some([\"d41d 12 utils optional a.deb\"])" },
+        Read { what: "Changes maintainer/changed_by/description/checksums", text: "Format: 1.8\nSource: foo\nBinary: a b\nArchitecture: source amd64\nVersion: 1.0-1\nDistribution: unstable\nUrgency: medium\nMaintainer: M <m@e.org>\nChanged-By: C <c@e.org>\nDescription:\n a - x\n b - y\nChecksums-Sha1:\n da39 12 a.deb\nChecksums-Sha256:\n e3b0 12 a.deb\n 77aa 5 b.deb\nFiles:\n d41d 12 utils optional a.deb\n", read: |d| { let c = debian_control::lossless::changes::Changes::read(d.to_string().as_bytes()).unwrap(); format!("{:?} {:?} {:?} {:?} {:?}", c.maintainer(), c.changed_by(), c.description(), c.checksums_sha1().map(|v| v.iter().map(|f| (f.sha1.clone(), f.size, f.filename.clone())).collect::<Vec<_>>()), c.checksums_sha256().map(|v| v.iter().map(|f| (f.sha256.clone(), f.size, f.filename.clone())).collect::<Vec<_>>())) }, expect: "Some(\"M <m@e.org>\") Some(\"C <c@e.org>\") Some(\"a - x\\nb - y\") Some([(\"da39\", 12, \"a.deb\")]) Some([(\"e3b0\", 12, \"a.deb\"), (\"77aa\", 5, \"b.deb\")])" },
+        Read { what: "Changes::get_pool_path main", text: "Format: 1.8\nSource: foo\nFiles:\n d41d 12 utils optional a.deb\n", read: |d| { let c = debian_control::lossless::changes::Changes::read(d.to_string().as_bytes()).unwrap(); format!("{:?}", c.get_pool_path()) }, expect: "Some(\"pool/main/f/foo\")" },
+        Read { what: "Changes::get_pool_path component from the section", text: "Format: 1.8\nSource: foo\nFiles:\n d41d 12 non-free/utils optional a.deb\n", read: |d| { let c = debian_control::lossless::changes::Changes::read(d.to_string().as_bytes()).unwrap(); format!("{:?}", c.get_pool_path()) }, expect: "Some(\"pool/non-free/f/foo\")" },
+        Read { what: "Changes::get_pool_path lib prefix (pool/main/libf/libfoo in the Debian archive)", text: "Format: 1.8\nSource: libfoo\nFiles:\n d41d 12 libs optional a.deb\n", read: |d| { let c = debian_control::lossless::changes::Changes::read(d.to_string().as_bytes()).unwrap(); format!("{:?}", c.get_pool_path()) }, expect: "Some(\"pool/main/libf/libfoo\")" },
+        Read { what: "Changes::get_pool_path without Files", text: "Format: 1.8\nSource: foo\n", read: |d| { let c = debian_control::lossless::changes::Changes::read(d.to_string().as_bytes()).unwrap(); format!("{:?}", c.get_pool_path()) }, expect: "None" },
+        Read { what: "Changes::get_pool_path with an empty Files field (no panic)", text: "Format: 1.8\nSource: foo\nFiles:\n", read: |d| { let c = debian_control::lossless::changes::Changes::read(d.to_string().as_bytes()).unwrap(); let _ = c.get_pool_path(); "no panic".to_string() }, expect: "no panic" },
+        Read { what: "control::Source build relation getters", text: "Source: foo\nBuild-Depends-Indep: a, b\nBuild-Depends-Arch: c (>= 1)\nBuild-Conflicts: d\nBuild-Conflicts-Indep: e | f\nBuild-Conflicts-Arch: g [amd64]\n", read: |d| { let s = v_csrc(d); let t = |r: Option<Relations>| r.map(|r| r.entries().map(|e| e.to_string().trim().to_string()).collect::<Vec<_>>()); format!("{:?} {:?} {:?} {:?} {:?}", t(s.build_depends_indep()), t(s.build_depends_arch()), t(s.build_conflicts()), t(s.build_conflicts_indep()), t(s.build_conflicts_arch())) }, expect: "Some([\"a\", \"b\"]) Some([\"c (>= 1)\"]) Some([\"d\"]) Some([\"e | f\"]) Some([\"g [amd64]\"])" },
+        Read { what: "control::Source build relation getters absent", text: "Source: foo\nBuild-Depends: z\n", read: |d| { let s = v_csrc(d); format!("{} {} {} {} {}", s.build_depends_indep().is_none(), s.build_depends_arch().is_none(), s.build_conflicts().is_none(), s.build_conflicts_indep().is_none(), s.build_conflicts_arch().is_none()) }, expect: "true true true true true" },
+        Read { what: "control::Source::vcs Git subpath and branch URL", text: "Source: foo\nVcs-Git: https://salsa.debian.org/x/y.git -b debian/sid [sub/dir]\n", read: |d| { let v = v_csrc(d).vcs().unwrap(); format!("{:?} {:?}", v.subpath(), v.to_branch_url()) }, expect: "Some(\"sub/dir\") Some(\"https://salsa.debian.org/x/y.git,branch=debian/sid\")" },
+        Read { what: "control::Source::vcs Git without a branch: branch URL is the repository URL", text: "Source: foo\nVcs-Git: https://salsa.debian.org/x/y.git\n", read: |d| { let v = v_csrc(d).vcs().unwrap(); format!("{:?} {:?}", v.subpath(), v.to_branch_url()) }, expect: "None Some(\"https://salsa.debian.org/x/y.git\")" },
+        Read { what: "control::Source::vcs Svn/Hg/Bzr branch URL", text: "Source: foo\nVcs-Bzr: https://e.org/bzr/x [p]\n", read: |d| { let v = v_csrc(d).vcs().unwrap(); format!("{:?} {:?}", v.subpath(), v.to_branch_url()) }, expect: "Some(\"p\") Some(\"https://e.org/bzr/x\")" },
+        Read { what: "Control::add_binary appends a paragraph found by binaries()", text: "# head\nSource: s\nSection: libs\n\nPackage: b1\n", read: |d| { let mut c = control::Control::from_str(&d.to_string()).unwrap(); let b = c.add_binary("b2"); format!("{:?} {:?} {:?}", b.name(), c.binaries().map(|b| b.name()).collect::<Vec<_>>(), c.as_deb822().to_string()) }, expect: "Some(\"b2\") [Some(\"b1\"), Some(\"b2\")] \"# head\\nSource: s\\nSection: libs\\n\\nPackage: b1\\n\\nPackage: b2\\n\"" },
+        Read { what: "Control::add_source on a file without one", text: "Package: b1\nArchitecture: any\n", read: |d| { let mut c = control::Control::from_str(&d.to_string()).unwrap(); let s = c.add_source("s"); format!("{:?} {:?} {:?}", s.name(), c.source().and_then(|s| s.name()), c.as_deb822().to_string()) }, expect: "Some(\"s\") Some(\"s\") \"Package: b1\\nArchitecture: any\\n\\nSource: s\\n\"" },
+        Read { what: "copyright::Header::fix updates an old format URL", text: "Format: http://www.debian.org/doc/packaging-manuals/copyright-format/1.0\nUpstream-Name: x\n# c\nSource: https://e.org\n", read: |d| { let c = cp(d); let mut h = c.header().unwrap(); h.fix(); format!("{:?} {:?}", h.format_string(), c.to_string()) }, expect: "Some(\"https://www.debian.org/doc/packaging-manuals/copyright-format/1.0/\") \"Format: https://www.debian.org/doc/packaging-manuals/copyright-format/1.0/\\nUpstream-Name: x\\n# c\\nSource: https://e.org\\n\"" },
+        Read { what: "copyright::Header::fix leaves a current header alone", text: "Format: https://www.debian.org/doc/packaging-manuals/copyright-format/1.0/\nUpstream-Name: x\n", read: |d| { let c = cp(d); let mut h = c.header().unwrap(); h.fix(); c.to_string() }, expect: "Format: https://www.debian.org/doc/packaging-manuals/copyright-format/1.0/\nUpstream-Name: x\n" },
+        Read { what: "dep3::PatchHeader set_upstream_bug / set_vendor_bug add fields that bugs() reports", text: "Description: x\nBug: https://e.org/1\n", read: |d| { let mut h = dp(d); h.set_upstream_bug("https://e.org/2"); h.set_vendor_bug("Debian", "https://bugs.debian.org/3"); format!("{:?} {:?}", h.bugs().collect::<Vec<_>>(), h.vendor_bugs("Debian").collect::<Vec<_>>()) }, expect: "[(None, \"https://e.org/1\"), (None, \"https://e.org/2\"), (Some(\"Debian\"), \"https://bugs.debian.org/3\")] [\"https://bugs.debian.org/3\"]" },
         Read { what: "Changes::set_format", text: "Format: 1.7\nSource: foo\n", read: |d| { let mut c = debian_control::lossless::changes::Changes::read(d.to_string().as_bytes()).unwrap(); c.set_format("1.8"); format!("{:?}", c.format()) }, expect: "Some(\"1.8\")" },
         Read { what: "copyright::Header::format_string + files_excluded lines", text: "Format: https://www.debian.org/doc/packaging-manuals/copyright-format/1.0/\nFiles-Excluded: vendor/*\n *.min.js\n", read: |d| { let c = cp(d); let h = c.header().unwrap(); format!("{:?} {:?}", h.format_string(), h.files_excluded()) }, expect: "Some(\"https://www.debian.org/doc/packaging-manuals/copyright-format/1.0/\") Some([\"vendor/*\", \"*.min.js\"])" },
         Read { what: "copyright::FilesParagraph::files + copyright lines + license", text: "Format: x\n\nFiles: src/* debian/*\n doc/?\nCopyright: 2019 A\n 2020 B\nLicense: GPL-2+\n", read: |d| { let c = cp(d); let f = c.iter_files().next().unwrap(); format!("{:?} {:?} {:?}", f.files(), f.copyright(), f.license()) }, expect: "[\"src/*\", \"debian/*\", \"doc/?\"] [\"2019 A\", \"2020 B\"] Some(Name(\"GPL-2+\"))" },
